@@ -14,7 +14,7 @@ RULE = (
     "IWLS, HMC, NUTS with random DA constants, initial step sizes and schedules with several fast/slow "
     "adaptation, burn-in and posterior epochs: the recurrence is replayed over the stored kernel states "
     "(one per transition) and stored acceptance probabilities; restart value, epoch-end installation and "
-    "frozen-epoch constancy are judged; (c) monotonicity on random (state, a1<a2) pairs. non-trivial = "
+    "frozen-epoch constancy are judged; (c) monotonicity on random (state, a1<a2) pairs. Also: targets that are NaN / -inf on a half-line (proposals rejected with acceptance 0 during adaptation); dual-averaging constants assigned to the kernel's attributes after construction. non-trivial = "
     "engine run with >= 2 adaptation epochs and >= 1 frozen epoch; distinct by configuration hash"
 )
 REQUIRED = ["direct_recurrence", "engine_recurrence", "restart_from_current_step", "averaged_step_installed",
